@@ -20,8 +20,8 @@ can be compared by equality (`Eval.Request`, `Err`); values inside results are S
 
 **Outside the fragment.** `Out.panic "unspecified"` marks what this Spec deliberately does not
 define: the shifts (whose Model counterpart disagrees with any Spec on unmasked counts, finding
-C07-1), `DW_OP_convert` / `reinterpret` / `const_type`, and floating point answers. `eval_refines`
-is stated for runs of the Spec machine that never reach such a point.
+C07-1) and floating point values (answers and base types). `eval_refines` is stated for runs of
+the Spec machine that never reach such a point.
 -/
 namespace Gimli.Spec.Machine
 open Gimli Gimli.Op Gimli.Spec.Expr
@@ -196,18 +196,18 @@ def exec (c : SCfg) (op : Operation) (s : SState) : Out Effect :=
       let (v, s) ← pop s
       let addr ← toNat64 v
       pure (.piece { s with pieces := s.pieces ++ [⟨some sizeInBits, bitOffset, .address addr⟩] })
-  | .typedLiteral .. | .convert _ | .reinterpret _ => unspecified
+  -- typed values (§2.5.1.6): the base type is asked for first
+  | .typedLiteral baseType value => .ok (.request (.typedLiteral value) (.requiresBaseType baseType) s)
+  | .convert baseType => .ok (.request .convert (.requiresBaseType baseType) s)
+  | .reinterpret baseType => .ok (.request .reinterpret (.requiresBaseType baseType) s)
   | .variableValue _ | .uninitialized => .err .rUnsupportedEvaluation
 
 /-- at the end of the current expression return to the caller(s); `true` = the whole evaluation
 is at its end -/
 def unwind : Bytes → Nat → List (Bytes × Nat) → Bool × Bytes × Nat × List (Bytes × Nat)
-  | code, pc, frames =>
-    if pc < code.length then (false, code, pc, frames) else
-    match frames with
-    | [] => (true, code, pc, [])
-    | (code', pc') :: rest => unwind code' pc' rest
-termination_by _ _ frames => frames.length
+  | code, pc, [] => (!decide (pc < code.length), code, pc, [])
+  | code, pc, (code', pc') :: rest =>
+    if pc < code.length then (false, code, pc, (code', pc') :: rest) else unwind code' pc' rest
 
 def atEnd (s : SState) : Bool × SState :=
   match unwind s.code s.pc s.frames with
@@ -265,35 +265,111 @@ def run (c : SCfg) : Nat → SState → Out (Eval.Request × Option Eval.Waiting
         run c fuel s
       | .request w r s => pure (r, some w, s)
 
-/-- the answer to a request, in Spec values -/
+/-- the answer to a request, in Spec values (one kind per `resume_with_*`) -/
 inductive SAnswer where
-  | value (v : SVal)            -- memory, register, entry value, wasm
-  | number (n : Nat)            -- frame base, CFA, TLS, relocated / indexed address, parameter
-  | expression (bytes : Bytes)  -- the `DW_AT_location` of a called DIE (empty: nothing to call)
+  | memory (v : SVal)
+  | register (v : SVal)
+  | wasmValue (v : SVal)
+  | frameBase (n : Nat)
+  | tls (n : Nat)
+  | callFrameCfa (n : Nat)
+  | atLocation (bytes : Bytes)    -- the `DW_AT_location` of the called DIE (empty: nothing to call)
+  | entryValue (v : SVal)
+  | parameterRef (n : Nat)
+  | relocatedAddress (n : Nat)
+  | indexedAddress (n : Nat)
   | baseType (t : ValueType)
   deriving DecidableEq, Repr, Inhabited
 
-/-- continue from an answer -/
+/-- push an answered value (floating point answers are outside this Spec) -/
+def pushValue (v : SVal) (s : SState) : Out SState :=
+  if isFloat v.ty then unspecified else .ok (push v s)
+
+/-- continue from an answer; an answer of the wrong kind is outside the protocol -/
 def applyAnswer (c : SCfg) (w : Eval.Waiting) (a : SAnswer) (s : SState) : Out SState :=
   match w, a with
-  | .memory, .value v | .entryValue, .value v | .wasmValue, .value v =>
-    if isFloat v.ty then unspecified else .ok (push v s)
-  | .register offset, .value v =>
+  | .memory, .memory v => pushValue v s
+  | .entryValue, .entryValue v => pushValue v s
+  | .wasmValue, .wasmValue v => pushValue v s
+  -- DW_OP_breg<n> / bregx / regval_type: the register's value plus the offset, in the value's type
+  | .register offset, .register v =>
     if isFloat v.ty then unspecified else do
     let r ← binary c.a .add v ⟨v.ty, canon c.a v.ty offset⟩
     pure (push r s)
-  | .frameBase offset, .number fb => .ok (push (gen c ((fb : Int) + offset)) s)
-  | .tls, .number n | .cfa, .number n | .parameterRef, .number n | .relocatedAddress, .number n
-  | .indexedAddress, .number n => .ok (push (gen c n) s)
-  | .atLocation, .expression bytes =>
+  | .frameBase offset, .frameBase fb => .ok (push (gen c ((fb : Int) + offset)) s)
+  | .tls, .tls n => .ok (push (gen c n) s)
+  | .cfa, .callFrameCfa n => .ok (push (gen c n) s)
+  | .parameterRef, .parameterRef n => .ok (push (gen c n) s)
+  | .relocatedAddress, .relocatedAddress n => .ok (push (gen c n) s)
+  | .indexedAddress, .indexedAddress n => .ok (push (gen c n) s)
+  -- DW_OP_call*: continue in the called expression, return here at its end
+  | .atLocation, .atLocation bytes =>
     match bytes with
     | [] => .ok s
     | _ => .ok { s with code := bytes, pc := 0, frames := (s.code, s.pc) :: s.frames }
+  -- typed values; floating point base types are outside this Spec
+  | .typedLiteral bytes, .baseType t =>
+    if isFloat t then unspecified else do
+    let v ← literalInt c.endian c.a t bytes
+    pure (push v s)
+  | .convert, .baseType t => do
+    let (v, s) ← pop s
+    if isFloat t ∨ isFloat v.ty then unspecified else pure (push (convertInt c.a v t) s)
+  | .reinterpret, .baseType t => do
+    let (v, s) ← pop s
+    if isFloat t ∨ isFloat v.ty then unspecified else do
+    let r ← reinterpretInt c.a v t
+    pure (push r s)
   | _, _ => unspecified
 
 def resume (c : SCfg) (fuel : Nat) (w : Eval.Waiting) (a : SAnswer) (s : SState) :
     Out (Eval.Request × Option Eval.Waiting × SState) := do
   let s ← applyAnswer c w a s
   run c fuel s
+
+
+/-! ## whole evaluations: start, then one answer per request -/
+
+/-- how an evaluation ends -/
+inductive SFinal where
+  | done (pieces : List SPiece) (value : Option SVal)
+  | error (e : Err)
+  | unspecified
+  | diverged
+  | scriptEnd
+  deriving DecidableEq, Repr, Inhabited
+
+def finalOf {α} : Out α → SFinal
+  | .ok _ => .scriptEnd
+  | .err e => .error e
+  | .panic _ => .unspecified
+  | .diverge => .diverged
+
+/-- the machine before the first operation; an initial value (e.g. for
+`DW_AT_vtable_elem_location`) is a generic value already on the stack -/
+def initial (c : SCfg) (code : Bytes) (init : Option Nat) : SState :=
+  { code := code, pc := 0, stack := match init with | some v => [gen c v] | none => [] }
+
+/-- a script answers each request as it comes (the answer may depend on what is asked) -/
+abbrev Script := List (Eval.Request → SAnswer)
+
+/-- after a call returned request `r`: answer from the script until completion, an error, or the
+end of the script. Returns the requests seen and the end. -/
+def runFrom (c : SCfg) (fuel : Nat) : Script → Eval.Request → Option Eval.Waiting → SState → List Eval.Request × SFinal
+  | _, .complete, _, s => ([.complete], .done s.pieces s.valueResult)
+  | [], r, _, _ => ([r], .scriptEnd)
+  | _ :: _, r, none, _ => ([r], .unspecified)
+  | f :: fs, r, some w, s =>
+    match resume c fuel w (f r) s with
+    | .ok (r', w', s') =>
+      match runFrom c fuel fs r' w' s' with
+      | (tr, fin) => (r :: tr, fin)
+    | o => ([r], finalOf o)
+
+/-- a whole evaluation of `code` -/
+def runAll (c : SCfg) (fuel : Nat) (script : Script) (code : Bytes) (init : Option Nat) : List Eval.Request × SFinal :=
+  match run c fuel (initial c code init) with
+  | .ok (r, w, s) => runFrom c fuel script r w s
+  | o => ([], finalOf o)
 
 end Gimli.Spec.Machine
